@@ -13,17 +13,17 @@ PID = "C09"
 
 def build(tier, rng, work):
     graphs = []
-    names = PP.plan(tier) + ["gui2q"]
+    names = PP.plan(tier) + ["gui2q", "mixsets", "tut1mix"]
     for n in names:
         first = PP.eager_graph(n)
         graphs.append(first)
-        if n in ("tut13", "gui3", "gui2q") or tier != "quick":
+        if n in ("tut13", "gui3", "gui2q", "mixsets", "tut1mix") or tier != "quick":
             ref = S.class_edges(first)
             if n in ("tut13", "get2", "minc") or tier != "quick":
                 second = PP.eager_graph(n, reference=ref)      # determinism
                 second["label"] += " (second parse)"
                 graphs.append(second)
-            if n in ("tut13", "gui3", "gui2q"):
+            if n in ("tut13", "gui3", "gui2q", "mixsets", "tut1mix"):
                 for sn in PP.lazy_graphs(n, [rng.randrange(1 << 30) for _ in range(4 if tier == "quick" else 16)], work):
                     sn["reference"] = [list(e) for e in ref]
                     sn["hasreference"] = True
